@@ -1054,7 +1054,7 @@ class GattClient(GattLayer):
         local_mtu = self.att.get_server_mtu()
 
         nb_chunks = int(data_len / (local_mtu - 5))
-        if nb_chunks % (local_mtu - 5) > 0:
+        if data_len % (local_mtu - 5) > 0:
             nb_chunks += 1
         chunk_size = local_mtu - 5
 
